@@ -963,6 +963,8 @@ from mlmverif.selfcheck import B, OK  # noqa: E402
 
 _F = 'chainables/tree.py'
 VARIANTS = [
+    OK('copy-and-set-through-a-local', 'chainables/tree.py',
+       "    return self.set(keys, values, in_place=False)", "    updated = self.set(keys, values, in_place=False)\n    return updated"),
     OK('setter-copy-as-statement', 'chainables/tree.py',
        "      result = tree if in_place else copy.copy(tree)", "      if in_place:\n        result = tree\n      else:\n        result = copy.copy(tree)"),
     OK('child-fetched-through-a-local', 'chainables/tree.py',
